@@ -194,6 +194,26 @@ impl Sim {
             6
         }
     }
+    /// the lock identifier a deposit names: a fresh raw id, or the full id of an existing position
+    /// in this LP token (of any user)
+    fn resolve_lock_id(&self, lock: Option<&LockSpec>, lp_denom: &str) -> Option<String> {
+        let l = lock?;
+        if let Some(i) = l.existing {
+            let mut all: Vec<String> = vec![];
+            for u in self.w.users.iter().chain(std::iter::once(&self.w.owner)) {
+                for p in self.w.all_positions(u) {
+                    if p.lp_asset.denom == lp_denom {
+                        all.push(p.identifier);
+                    }
+                }
+            }
+            all.sort();
+            if !all.is_empty() {
+                return Some(all[pick(i, all.len())].clone());
+            }
+        }
+        l.id.map(|k| format!("lk{k}"))
+    }
     fn pick_pool<'a>(&self, obs: &'a Obs, p: u16) -> Option<&'a PoolView> {
         let ids = obs.pool_ids();
         if ids.is_empty() {
@@ -292,7 +312,7 @@ impl Sim {
                             }
                         }
                         let receiver = recv_addr(self, receiver);
-                        let lock_id = lock.as_ref().and_then(|l| l.id.map(|k| format!("lk{k}")));
+                        let lock_id = self.resolve_lock_id(lock.as_ref(), &p.lp_denom);
                         let r = self.w.provide(
                             &sender,
                             &p.id,
@@ -338,7 +358,7 @@ impl Sim {
                         }
                         let deposits = vec![coin(amount, &p.denoms[i])];
                         let receiver = recv_addr(self, receiver);
-                        let lock_id = lock.as_ref().and_then(|l| l.id.map(|k| format!("lk{k}")));
+                        let lock_id = self.resolve_lock_id(lock.as_ref(), &p.lp_denom);
                         let r = self.w.provide(
                             &sender,
                             &p.id,
@@ -778,6 +798,47 @@ impl Sim {
                     &funds,
                 );
                 (sender, Kinded::Bad(if over { "create pool overpaying the fees".into() } else { "create pool underpaying the fees".into() }), r)
+            }
+            Bad::CreateOddFunds { user, k } => {
+                let sender = self.user(*user);
+                let cf = self.current_creation_fee.clone();
+                let tf = self.w.cfg.tf_fee_coins();
+                let exact = self.w.creation_funds(&cf);
+                let mut funds: Vec<Coin> = match k % 8 {
+                    0 => tf.iter().map(|c| coin(c.amount.u128() * 2, &c.denom)).collect(),
+                    1 => vec![coin(cf.amount.u128() * 2, &cf.denom)],
+                    2 => vec![cf.clone()],
+                    3 => tf.clone(),
+                    4 => exact.iter().map(|c| coin(c.amount.u128() * 2, &c.denom)).collect(),
+                    5 => exact.iter().map(|c| coin(c.amount.u128() / 2, &c.denom)).collect(),
+                    6 => exact.iter().skip(1).cloned().collect(),
+                    _ => exact.iter().rev().skip(1).cloned().collect(),
+                };
+                funds.retain(|c| !c.amount.is_zero());
+                funds.sort_by(|a, b| a.denom.cmp(&b.denom));
+                funds.dedup_by(|a, b| a.denom == b.denom);
+                let same = {
+                    let mut a = funds.clone();
+                    a.sort_by(|x, y| x.denom.cmp(&y.denom));
+                    a == exact
+                };
+                let r = self.w.pm_exec(
+                    &sender,
+                    &pm::ExecuteMsg::CreatePool {
+                        asset_denoms: vec!["uweth".into(), "ubtc".into()],
+                        asset_decimals: vec![18, 8],
+                        pool_fees: FeeSpec { protocol: 0, swap: 0, burn: 0, extra: vec![] }.to_pool_fee(),
+                        pool_type: pm::PoolType::ConstantProduct,
+                        pool_identifier: None,
+                    },
+                    &funds,
+                );
+                if same {
+                    // by coincidence the combination is the exact payment: an ordinary creation
+                    (sender, Kinded::Config, r)
+                } else {
+                    (sender, Kinded::Bad("create pool paying another combination of the fee amounts".into()), r)
+                }
             }
             Bad::OwnershipByStranger { user } => {
                 let sender = self.user(*user);
